@@ -702,6 +702,9 @@ def stub_run(bases, use_cls_pointer):
 
 def stub_inputs(rng, tier):
   hs = [h for h, _ in enum_hiers(3, 3)]
+  # every hierarchy of 5 classes with at most 2 distinct bases each (memoised rows of _ComputeMRO only matter from
+  # depth 2 on: the smallest hierarchies where a base is linearised through two different paths have 5 classes)
+  hs += [h for h, _ in enum_hiers(5, 2, with_dups=False)]
   n_ex = len(hs)
   for _ in range(4000 if tier == "thorough" else 600):
     h, _ = random_hier(rng, pdup=0.08)
